@@ -111,9 +111,12 @@ func (w *tbWorld) fresh(name string) bool {
 	if re.WhenScope != nil {
 		deepReset(re.WhenScope.Expression, 0)
 	}
-	hc, gc := w.f.HeavyCalls, w.f.GetICalls
+	hc, gc, ic := w.f.HeavyCalls, w.f.GetICalls, w.f.ItemCalls()
 	can, err := re.Evaluate(context.Background(), w.dc, w.ref.WorkingMemory)
 	w.f.HeavyCalls, w.f.GetICalls = hc, gc // the oracle's own evaluations are not counted
+	if len(w.f.items) > 0 {
+		w.f.items[0].Calls = ic
+	}
 	if err != nil {
 		return false
 	}
@@ -276,11 +279,12 @@ func tbInvalidates(re *ast.RuleEntry) bool {
 
 // Template sets (the *programs* dimension is a curated family; see DESIGN §4).
 var tbSets = map[string][]string{
-	"memo":    {"b_basic", "b_toplevel", "b_slice_sel", "b_slice", "b_map", "b_nested", "b_short", "b_shared", "b_forget", "b_ptrswap", "b_forgetcall"},
-	"control": {"b_retract", "b_fail", "b_nilptr"},
+	"memo":    {"b_basic", "b_toplevel", "b_slice_sel", "b_slice", "b_map", "b_nested", "b_short", "b_shared", "b_forget", "b_ptrswap", "b_forgetcall", "b_chain", "b_failshared"},
+	"control": {"b_retract", "b_fail", "b_nilptr", "b_actfail"},
 	"values":  {"b_compound", "b_args", "b_float", "b_string"},
 	"reuse":   {"b_unread", "b_retract", "b_basic"},
 	"reuseq":  {"b_unread", "b_basic"},
+	"fetch":   {"b_basic", "b_short", "b_map", "b_slice", "b_nested", "b_shared"},
 	"clone":   {"b_argshare", "b_shared", "b_short", "b_retract", "b_map", "b_slice_sel", "b_forgetcall", "two"},
 }
 
@@ -340,6 +344,7 @@ func VerifTierBRun(tmpl string, maxCycle int, flags int) {
 	// C13: a shared side-effect-free call is evaluated at most once between invalidations
 	verif.Assert(w.L("C13:shared-call-evaluated-at-most-once-between-invalidations"), w.f.HeavyCalls <= 1+invalidations)
 	verif.Assert(w.L("C13:shared-accessor-evaluated-at-most-once-between-invalidations"), w.f.GetICalls <= 1+invalidations)
+	verif.Assert(w.L("C13:shared-call-on-an-element-of-a-method-result-evaluated-at-most-once"), w.f.ItemCalls() <= 1+invalidations)
 	if w.f.HeavyCalls > 0 {
 		verif.Reach("tierB:counted-call-ran")
 	}
@@ -404,6 +409,20 @@ var tbPost = map[string]func(w *tbWorld, pre factSnap, err error){
 		fs := firedSet(w)
 		if err == nil {
 			verif.Assert(w.L("C14:healthy-rule-not-disturbed-by-a-failing-sibling"), verif.Implies(pre.f.I8 < 1, fs["X4"] > 0))
+		}
+	},
+	// C14: a failing action: error naming the rule, completed writes kept, later actions and rules not run
+	"b_actfail": func(w *tbWorld, pre factSnap, err error) {
+		fs := firedSet(w)
+		if fs["AF1"] > 0 {
+			verif.Reach("tierB:failing-action-fired")
+			verif.Assert(w.L("C14:action-failure-is-returned"), err != nil)
+			if err != nil {
+				verif.Assert(w.L("C14:action-error-names-the-rule"), strings.Contains(err.Error(), "AF1"))
+			}
+			verif.Assert(w.L("C14:effects-of-completed-actions-are-kept"), w.f.U8 == 1)
+			verif.Assert(w.L("C14:actions-after-the-failing-one-do-not-run"), w.f.U16 == pre.f.U16)
+			verif.Assert(w.L("C14:no-rule-fires-after-a-failed-action"), w.fired[len(w.fired)-1] == "AF1")
 		}
 	},
 	"b_nilptr": func(w *tbWorld, pre factSnap, err error) {
@@ -533,4 +552,49 @@ func VerifTierBReuse(set string, maxCycle int, fetchFirst int) {
 	}
 	// every rule retracted in the first call takes part again: its condition was evaluated in the second call
 	verif.Assert(w.L("C08:later-call-evaluated-rules"), w.nEval > 0)
+}
+
+// ---------------------------------------------------------------- repeated FetchMatchingRules (C11 / C08, Tier B)
+
+// VerifFetchTwice: FetchMatchingRules, then the HOST changes the facts (plain Go assignments, not rule actions), then
+// FetchMatchingRules again with the same instance and the same data context. Each result must be exactly the rules whose
+// condition holds on the facts of that moment (memo-free oracle), in non-increasing salience order.
+func VerifFetchTwice(set string) {
+	ts := tbSets[set]
+	tmpl := ts[verif.Choice("template", len(ts))]
+	w := tbSetup(tmpl, 0, false)
+	eng := &engine.GruleEngine{MaxCycle: 1}
+	check := func(tag string) {
+		res, err := eng.FetchMatchingRules(w.dc, w.kb)
+		verif.Assert(w.L("C11:"+tag+":no-error"), err == nil)
+		if err != nil {
+			return
+		}
+		in := map[string]int{}
+		for _, re := range res {
+			in[re.RuleName]++
+		}
+		for _, n := range w.names {
+			f := w.fresh(n)
+			verif.Assert(w.L("C11:"+tag+":returned-iff-the-condition-holds-now:"+n), verif.Iff(in[n] == 1, f))
+			verif.Assert(w.L("C08:"+tag+":fetch-result-as-on-a-fresh-instance:"+n), verif.Iff(in[n] == 1, f))
+			verif.Assert(w.L("C11:"+tag+":returned-at-most-once:"+n), in[n] <= 1)
+		}
+		for i := 0; i+1 < len(res); i++ {
+			verif.Assert(w.L("C11:"+tag+":non-increasing-salience"), res[i].Salience >= res[i+1].Salience)
+		}
+	}
+	pre := snapFact(w.f, w.topN())
+	check("first-call")
+	w.frame(pre, w.topN(), map[string]bool{}) // FetchMatchingRules executes no action: facts untouched
+	// the host program changes the facts behind the engine's back
+	w.f.I, w.f.J, w.f.K = smallInt("F.I'"), smallInt("F.J'"), smallInt("F.K'")
+	w.f.B, w.f.C = verif.Bool("F.B'"), verif.Bool("F.C'")
+	w.f.Arr[0], w.f.Arr[1] = smallInt("F.Arr0'"), smallInt("F.Arr1'")
+	w.f.M["a"] = smallInt("F.Ma'")
+	if w.f.P != nil {
+		w.f.P.V = smallInt("F.P.V'")
+	}
+	verif.Reach("tierB:second-fetch")
+	check("second-call-same-data-context")
 }
